@@ -3,6 +3,7 @@
 'needs to manifest' paragraph for the variant out of the agent's NOTES.md."""
 import re, subprocess, sys, os
 pid, x, det = sys.argv[1:4]
+dx = sys.argv[4:5]
 notes = open('/tmp/mut/%s/_out/NOTES.md' % pid).read().splitlines()
 idx = [i for i, l in enumerate(notes) if re.search(r'needs? to manifest|\*\*Needs|^\s*-\s*\*\*Needs|Trigger', l, re.I)]
 needs = "see agent_notes.md"
@@ -15,4 +16,4 @@ if idx:
             continue
         para.append(l.strip())
     needs = re.sub(r'\s+', ' ', ' '.join(para))[:700]
-subprocess.check_call([os.path.join(os.path.dirname(__file__), 'collect_seeded.py'), pid, x, needs, det])
+subprocess.check_call([os.path.join(os.path.dirname(__file__), 'collect_seeded.py'), pid, x, needs, det] + dx)
